@@ -83,8 +83,8 @@ CLAIMS["C10"] = {
             "write in between, never on Pending/Err/WriteZero paths (R10.2); a record is (re)started only when a new lock future is created, "
             "mid-record the header fields change only by written amounts (R10.3); the iov triple is header-tail, payload-tail of "
             "buf[..orig_len], padding, in order, and the success return is the truncated slice's length (R10.4); reply bytes are consumed "
-            "only by the amount confirmed written (R10.5). Does NOT decide the arithmetic that distributes a partial vectored write over the "
-            "three slices, nor padding values (C17).",
+            "only by the amount confirmed written (R10.5); the padding every record is started with is 0 or 8 - content % 8 for every content length "
+            "(R10.6 = R17.6). Does NOT decide the arithmetic that distributes a partial vectored write over the three slices.",
     "note": "futures Mutex exclusion and OwnedMutexGuard semantics trusted; implicit release by dropping a writer mid-record is outside the statement ('each successful write').",
     "design_ref": "DESIGN.md §4 C10",
 }
@@ -129,7 +129,8 @@ CLAIMS["C04"] = {
             "GetValuesResult is emitted only when the whole remaining body is present, once, for a non-empty body, with the name-value "
             "decoder's input no longer than the record's remaining payload at every construction (E8 obligation) (R4.2); reply buffers are append-only except at the documented reset points (R4.3); "
             "reported counts equal appended bytes (R4.4); a pending GetValues body cannot be discarded by other APIs (R4.5); every call of request::Parser::parse clears the reply buffer before it "
-            "drives or yields, so no reply is handed out twice (R4.6 = R3.2). Does NOT decide "
+            "drives or yields, so no reply is handed out twice (R4.6 = R3.2); a queried name selects a variable only through the generated exact-name lookup from_name, "
+            "never through the flags' text parser, from_bits or a literal (R4.7). Does NOT decide "
             "which variables a body split at an arbitrary offset contributes (name-value prefix-monotonicity, C16) nor the arithmetic of "
             "consume_output(k) interleavings.",
     "note": "The oracle (engine/rules/c04.py: oracle) is hand-written from the FastCGI specification sections 3.3, 4, 5.1, 5.5; to_record / write_response encodings are C17's subject.",
@@ -171,7 +172,8 @@ CLAIMS["C18"] = {
             "buffered data and assigns, the same stream touches nothing (R18.2); the header dispatch skips earlier streams, delivers the "
             "active one, holds back its empty record and any later stream as end-of-stream, with cmp(role, header type, active stream) "
             "(R18.3); the active-stream field is written only by set_stream and initialised to the role's first stream (R18.4); the async "
-            "layer feeds the verdict to expect (R18.5). Does NOT decide the loop inside cmp_input_streams (the pinned stream_order test "
+            "layer feeds the verdict to expect (R18.5); a stream switch leaves an empty parsed region and keeps the unparsed protocol bytes, and "
+            "stream_buffer / consume_stream expose exactly the parsed region (R18.6 = R3.10 geometry of discard_stream). Does NOT decide the loop inside cmp_input_streams (the pinned stream_order test "
             "enumerates its 3x2x3 table).",
     "note": "spec/fastcgi.json role tables are hand-written from the FastCGI specification section 6.",
     "design_ref": "DESIGN.md §4 C18",
@@ -195,6 +197,7 @@ CLAIMS["C03"] = {
             "Skip/GetValues drives hand over to a consuming or final state without growing the input and stop only while their record is incomplete (R3.13). "
             "A record state in flight is replaced only where C04 R4.5 allows (R3.14: the reply to a partially received GetValues cannot depend on when set_stream is called). "
             "The fatal StuckOnInput verdict is taken on the buffer fill left after the drive and the compaction, not on the fill at call entry, which the chunking decides (R3.15 = R6.2). "
+            "The length decoder that parse_buffered unwraps and NVIter reads as 'incomplete' fails only on truncated input (R3.16 = C15 O4-read / O5). "
             "Does NOT decide panics outside those obligations (expect/unwrap on Option/Result values, e.g. in parse_buffered's length "
             "arithmetic: inventory reported as information) nor chunking-invariance of outcomes beyond these necessary conditions.",
     "note": "R3.11 assumes three callee contracts (io::Write::write returns n <= buf.len(); NVIter only shrinks its slice, see C16 R16.1/R16.2; the remainder "
@@ -237,7 +240,8 @@ CLAIMS["C16"] = {
             "prefix.advance_by(head).split_at(name_len) (R16.2); one generic Iterator impl serves shared and mutable slices and the two "
             "Bytes impls have the same shape (R16.3); the encoder validates lengths through VarInt::try_from (InvalidInput), writes "
             "prefix, prefix, name, value and returns exactly the bytes written (R16.4); size_hint is (0, len/2) (R16.5); the prefix encoder nv::write relies on emits the "
-            "complete one- or four-byte form through write_all for every writer and returns exactly that count (R16.6 = C15 O4-write / O6). Zero-copy is a "
+            "complete one- or four-byte form through write_all for every writer and returns exactly that count (R16.6 = C15 O4-write / O6), and the prefix decoder the iterator relies on fails only on truncated "
+            "input (R16.7 = C15 O4-read / O5). Zero-copy is a "
             "type-level fact (witness). Does NOT decide round-trip equality, prefix-monotonicity over all inputs, or the size-hint "
             "inequality as computed facts.",
     "note": "VarInt::read/write behaviour is C15's subject.",
@@ -252,9 +256,10 @@ CLAIMS["C19"] = {
             "and every buffer handed to Hasher::write was upper-cased after input bytes were last copied into it (R19.3); the interned "
             "string table is total, all [A-Z0-9_], injective and equal to the variant names, and interned names are ordered by their "
             "strings (R19.4); normalising constructors reach construction only through from_compact, which folds before parsing (R19.5); "
-            "header mapping uses \"HTTP_\", '-' and '_' (R19.6). Does NOT decide prefix-freeness of the 16-byte chunked hashing nor "
+            "header mapping uses \"HTTP_\", '-' and '_' (R19.6); the generated parse table (the entries of strum's phf map) accepts exactly the canonical string of "
+            "each variant, no aliases (R19.7). Does NOT decide prefix-freeness of the 16-byte chunked hashing nor "
             "totality/antisymmetry of the order as computed facts.",
-    "note": "strum's generated FromStr (phf map) is trusted to invert the generated Into<&'static str> table.",
+    "note": "the phf lookup algorithm itself is trusted; its entries are checked against the generated Into<&'static str> table (R19.7).",
     "design_ref": "DESIGN.md §4 C19",
 }
 
@@ -268,7 +273,8 @@ CLAIMS["C09"] = {
             "raised, under the single-input-stream test in the constructor or under is_final_stream() after data/end of the active stream "
             "(R9.4); StreamWriters are constructed only behind the writeable and role-membership asserts with the request's id (R9.5); "
             "writeable() selects the role's last input stream (R9.6); in the poll-style read interfaces a byte count returned by the transport is committed "
-            "with Parser::parse(n) before the function can return or read again, so no transport segment is overwritten after a Pending (R9.7). Does NOT decide the exact bytes for every poll sequence nor EOF "
+            "with Parser::parse(n) before the function can return or read again, so no transport segment is overwritten after a Pending (R9.7); "
+            "the parser-level set_stream behind the async stream selection demotes a record in flight and discards buffered data on every path that changes the stream (R9.8 = R18.2). Does NOT decide the exact bytes for every poll sequence nor EOF "
             "persistence (the stream parser's behaviour: C02/C18).",
     "note": "stream::Parser::parse / stream_buffer / consume_stream are events with their documented meaning.",
     "design_ref": "DESIGN.md §4 C09",
